@@ -92,12 +92,10 @@ class PathCtx:
             self.seq_counter += 1
             return VecV(None, Opaque("%s#%d" % (name, self.seq_counter), ln), kind)
         n = self.choose(max_len + 1, "len@" + name)
-        elems = []
-        for i in range(n):
-            b = self.fresh_bv("%s[%d]" % (name, i), 8)
-            if kind == "string":
-                self.assume(z3.ULT(b, 0x80))
-            elems.append(Sc("u8", b))
+        elems = [Sc("u8", self.fresh_bv("%s[%d]" % (name, i), 8)) for i in range(n)]
+        if kind == "string":
+            # text is valid UTF-8: every well-formed byte sequence for n <= 3, ASCII beyond
+            self.assume(utf8_valid([e.v for e in elems]))
         return VecV(elems, None, kind)
 
     def fresh_opaque(self, name, kind="vec", nonempty=False):
@@ -117,6 +115,7 @@ class PathCtx:
             la = a.len if is_sym(a.len) else z3.BitVecVal(a.len, 64)
             lb = b.len if is_sym(b.len) else z3.BitVecVal(b.len, 64)
             self.assume(z3.Implies(v, la == lb))
+            self.assume(z3.Implies(z3.And(la == 0, lb == 0), v))      # two empty strings are equal
             tab[key] = v
         return tab[key]
 
@@ -124,9 +123,13 @@ class PathCtx:
         key = (a.ident, id(conc))
         tab = self.side.setdefault("opaque_eq", {})
         if key not in tab:
-            v = self.fresh_bool("eqc(%s)" % a.ident)
-            self.assume(z3.Implies(v, a.len == z3.BitVecVal(len(conc.elems), 64)))
-            tab[key] = v
+            la = a.len if is_sym(a.len) else z3.BitVecVal(a.len, 64)
+            if len(conc.elems) == 0:
+                tab[key] = (la == 0)                  # equal to the empty string iff empty
+            else:
+                v = self.fresh_bool("eqc(%s)" % a.ident)
+                self.assume(z3.Implies(v, la == z3.BitVecVal(len(conc.elems), 64)))
+                tab[key] = v
         return tab[key]
 
     def input_node_for_bytes(self, seq, ident):
@@ -443,6 +446,12 @@ class Engine:
             ctx.depth -= 1
             raise DepthExceeded("call depth %d exceeded in %s" % (self.max_call_depth, fn.name))
         self.stats.functions.add(fn.name)
+        track = fn.name.endswith("read_to_value")
+        if track:
+            side = ctx.side
+            side["live_parse"] = side.get("live_parse", 0) + 1
+            if side["live_parse"] > side.get("max_live_parse", 0):
+                side["max_live_parse"] = side["live_parse"]
         fr = Frame(fn, env)
         loc = fr.locals
         for i, a in zip(fn.args, args):
@@ -451,6 +460,8 @@ class Engine:
             return self._exec(ctx, fr)
         finally:
             ctx.depth -= 1
+            if track:
+                ctx.side["live_parse"] -= 1
 
     def _cell(self, fr, n):
         c = fr.locals.get(n)
@@ -801,6 +812,40 @@ TRANSPARENT_PREFIXES = tuple("core::ptr::" + x for x in ("Unique", "NonNull")) +
     ("std::ptr::Unique", "std::ptr::NonNull", "std::mem::MaybeUninit", "std::mem::ManuallyDrop")
 
 
+def utf8_valid(bs):
+    """z3 condition: the byte terms form well-formed UTF-8 (RFC 3629).  Exact for <= 3 bytes;
+    longer strings are restricted to ASCII (stated bound)."""
+    n = len(bs)
+    if n == 0:
+        return True
+    if n > 3:
+        return z3.And([z3.ULT(b, 0x80) for b in bs])
+
+    def rng(b, lo, hi):
+        return z3.And(z3.UGE(b, lo), z3.ULE(b, hi))
+
+    def seqs(i):
+        """alternatives for a well-formed suffix starting at byte i"""
+        if i == n:
+            return [True]
+        alts = []
+        b = bs[i]
+        for rest in seqs(i + 1):
+            alts.append(z3.And(z3.ULT(b, 0x80), rest))
+        if i + 2 <= n:
+            for rest in seqs(i + 2):
+                alts.append(z3.And(rng(b, 0xC2, 0xDF), rng(bs[i + 1], 0x80, 0xBF), rest))
+        if i + 3 <= n:
+            c1, c2 = bs[i + 1], bs[i + 2]
+            for rest in seqs(i + 3):
+                alts.append(z3.And(z3.Or(z3.And(b == 0xE0, rng(c1, 0xA0, 0xBF)),
+                                         z3.And(z3.Or(rng(b, 0xE1, 0xEC), rng(b, 0xEE, 0xEF)), rng(c1, 0x80, 0xBF)),
+                                         z3.And(b == 0xED, rng(c1, 0x80, 0x9F))),
+                                   rng(c2, 0x80, 0xBF), rest))
+        return alts
+    return z3.Or(seqs(0))
+
+
 def conc(sc):
     if isinstance(sc, Sc) and not is_sym(sc.v):
         return int(sc.v)
@@ -836,6 +881,8 @@ def int_cast(v, ty):
 
 
 def unop(op, a):
+    if op == "PtrMetadata":
+        return models.seq_len(None, a)
     if op == "Not":
         if a.ty == "bool":
             return Sc("bool", z3.Not(a.v) if is_sym(a.v) else (not a.v))
